@@ -136,16 +136,30 @@ func Keys(r *ev.Run, tier string) (evals, nontrivial int64) {
 		r.Outcome(fmt.Sprintf("%s: %d triples written and read back through the keeper iterator", what, len(want)))
 		nontrivial += int64(len(want))
 	}
-	compare("commitments", pk.GetAllPacketCommitments(ctx))
-	compare("acks", pk.GetAllPacketAcks(ctx))
-	compare("receipts", pk.GetAllPacketReceipts(ctx))
-	{
+	safe := func(what string, f func() []packettypes.PacketState) {
+		var got []packettypes.PacketState
+		var pan interface{}
+		func() {
+			defer func() { pan = recover() }()
+			got = f()
+		}()
+		if pan != nil {
+			evals++
+			r.Violation("C19:iterator-panics-on-stored-keys/"+what, fmt.Sprintf("reading back %s written through the keeper panics: %v", what, pan), map[string]interface{}{"engine": "c19-keys", "iterator": what})
+			return
+		}
+		compare(what, got)
+	}
+	safe("commitments", func() []packettypes.PacketState { return pk.GetAllPacketCommitments(ctx) })
+	safe("acks", func() []packettypes.PacketState { return pk.GetAllPacketAcks(ctx) })
+	safe("receipts", func() []packettypes.PacketState { return pk.GetAllPacketReceipts(ctx) })
+	safe("send-sequences", func() []packettypes.PacketState {
 		var ps []packettypes.PacketState
 		for _, s := range pk.GetAllPacketSendSeqs(ctx) {
 			ps = append(ps, packettypes.PacketState{SrcChain: s.SrcChain, DstChain: s.DstChain, Sequence: s.Sequence})
 		}
-		compare("send-sequences", ps)
-	}
+		return ps
+	})
 
 	// heights: per-byte exhaustive; key injectivity and read-back through every client's iterators
 	var heights []clienttypes.Height
